@@ -117,8 +117,12 @@ func (t *ReuseConnTransport) exchangeConnCtx(ctx context.Context, payload []byte
 	}
 	resChan := make(chan res, 1)
 
+	// The goroutine may still be writing when ctx is done and the caller
+	// releases payload. Let it work on its own copy.
+	payloadCopy := copyMsg(payload)
 	go func() {
-		resp, err := t.exchangeConn(payload, c)
+		defer pool.ReleaseBuf(payloadCopy)
+		resp, err := t.exchangeConn(payloadCopy, c)
 		resChan <- res{m: resp, err: err}
 		t.releaseConn(c, err)
 	}()
